@@ -5,7 +5,7 @@ ENTRY = {'title': 'Payload decoding conforms to the ecoNET wire layout for every
  'technique': 'Lean 4 round-trip theorems decode(encode m ++ rest) = (valOf m, rest) for every structure and the whole sensor chain (wire layout '
               'written once as encoders = the specification) + correspondence: Lean-encoded messages decoded by the real frames, plus a malformed '
               'stream',
- 'prop_modules': ['C05Sensors', 'C05Params', 'C05Ctx', 'C05CtxDevice', 'C05Device', 'C05Short', 'C05Uid', 'C05ShortParams', 'TieUid', 'TieParams', 'TieSchedule', 'TieStructParams', 'TieStructSensors'],
+ 'prop_modules': ['C05Sensors', 'C05Params', 'C05Ctx', 'C05CtxDevice', 'C05Device', 'C05Short', 'C05Uid', 'C05ShortParams', 'TieUid', 'TieParams', 'TieSchedule', 'TieStructParams', 'TieStructSensors', 'TieStructSections', 'TieStructSchedules'],
  'uses_tables': True,
  'level_text': 'Proof: for ALL well-formed abstract messages and ALL trailing bytes the decoder model run on the Lean-defined encoding returns '
                'exactly the encoded values and the remainder: the 16-section sensor chain (`rt_sensorData`, every presence combination; per-section '
@@ -28,18 +28,37 @@ ENTRY = {'title': 'Payload decoding conforms to the ecoNET wire layout for every
  'level_note': 'All structures have a round-trip theorem. Rests on correspondence: model <-> structures/*.py, purity, error classes of malformed '
                'payloads, formatted model name (printable ASCII only), UTF-8 validity = bytes.decode. Trusted: struct float conversion, inet_ntop '
                'text.',
- 'clauses': {'code tie of the thermostat-sensors section (round 8): the SOURCE TEXT of ThermostatSensorsStructure (._unpack_thermostat_sensors, '
-             '._thermostat_sensors, .decode), translated on every run, equals Sens.decThermostats / thermoEntries for every message, offset, '
-             'instance and data argument — masks shifted once per slot (connected or not), index = position, 9 bytes per slot, error '
-             'classes': 'theorem (TieStructSensors.unpack_thermostat_eq, thermostat_fold, thermostat_sensors_decode_eq, entriesP_model, '
-                        'decThermostats_shape) + translator validation (harness/pycode.py group sensors; also the translated mixer-sensors, '
-                        'fuel-level, boiler-load, pending-alerts, fan-power, boiler-power, fuel-consumption, output-flags decoders)',
+ 'clauses': {'code tie of the schedules structure (round 8): the SOURCE TEXT of SchedulesStructure._unpack_schedule / .decode, translated on every run, equals '
+             'Sched.decodeWeek / Sched.decodeResponse for every message, every NATURAL offset (negative offsets not covered), every instance and every data '
+             'argument that is None or a string-keyed dict: (index, week) per entry, returned offset offset + 3 + 47*count, IndexError when the model '
+             'fails, fewer than 3 bytes = no schedules with the offset unchanged; the schedule_parameters list is stated from the raw bytes (rawParams, '
+             'with P2.unpackParam): the model Entry keeps switch and value only':
+                 'theorem (TieStructSchedules.unpack_schedule_eq, sched_fold, schedules_decode_eq, rawParams_model: the (index, value) pairs of that list = the model entries\' switches and values) + translator validation (harness/pycode.py group schedule)',
+             'code tie of the short sensor sections and the mixer-sensors section (round 8): the SOURCE TEXT of FuelLevelStructure / BoilerLoadStructure / '
+             'PendingAlertsStructure / FanPowerStructure / BoilerPowerStructure / FuelConsumptionStructure / OutputFlagsStructure .decode and of '
+             'MixerSensorsStructure (._unpack_mixer_sensors, ._mixer_sensors, .decode), translated on every run, equals Sens.decFuelLevel / decBoilerLoad / '
+             'decPendingAlerts / decOptF32 / decOutputFlags / decMixer / decMixers (the model function is on the right-hand side of each theorem) for every '
+             'message, every NATURAL offset (negative offsets not covered) and every data argument that is None or a string-keyed dict — merged fields '
+             '(rendering fieldV : Val -> V), returned offset (pending alerts: offset + 1 + count), exception class by the slot that is cut; the instance '
+             'after a successful call (mixers), not after an exception':
+                 'theorem (TieStructSections.fuel_level_decode_eq, boiler_load_decode_eq, pending_alerts_decode_eq, fan_power_decode_eq, '
+                 'boiler_power_decode_eq, fuel_consumption_decode_eq, output_flags_decode_eq, unpack_mixer_eq, mixer_fold, mixer_sensors_decode_eq, '
+                 'mixer_sensors_decode_model, mixP_model, decMixers_shape, the *_rest lemmas) + translator validation (harness/pycode.py group sensors)',
+             'code tie of the thermostat-sensors section (round 8): the SOURCE TEXT of ThermostatSensorsStructure (._unpack_thermostat_sensors, '
+             '._thermostat_sensors, .decode), translated on every run, equals Sens.decThermostats (one statement: '
+             'TieStructSections.thermostat_sensors_decode_model, result = match Sens.decThermostats (msg.drop off) …) / thermoEntries for every message, every '
+             'NATURAL offset (negative offsets not covered), every instance and every data argument that is None or a string-keyed dict — masks shifted once '
+             'per slot (connected or not), index = position, 9 bytes per slot, error classes; instance attributes after a successful call only':
+                 'theorem (TieStructSections.thermostat_sensors_decode_model, thermostats_rest; TieStructSensors.unpack_thermostat_eq, thermostat_fold, '
+                 'thermostat_sensors_decode_eq, entriesP_model, decThermostats_shape) + translator validation (harness/pycode.py group sensors)',
              'code tie of the parameter blocks (round 8): the SOURCE TEXT of EcomaxParametersStructure / MixerParametersStructure / '
              'ThermostatParametersStructure (.decode and their generators) and utils.ensure_dict, translated on every run, equals P2.decodeEcomax '
-             '/ decodeMixer / decodeThermo for every message, offset, instance and data argument': 'theorem (TieStructParams.ecomax_decode_eq, '
-                                                                                                   'mixer_decode_eq, thermo_decode_eq, '
-                                                                                                   'thermo_sizes_tbl) + translator validation '
-                                                                                                   '(harness/pycode.py group structparams)',
+             '/ decodeMixer / decodeThermo for every message, every NATURAL offset (negative offsets not covered), every instance and every data argument '
+             'that is None or a string-keyed dict; thermostat decoder: instance with frame.handler = None or a device rendered as a dict whose '
+             'thermostats_available is absent or a natural (trusted get_nowait contract); the helpers _thermostat_parameter(s) for T != 0 (decode never '
+             'calls them with 0); instance attribute _offset after a successful call only; closed right-hand sides (blocksDictV)':
+                 'theorem (TieStructParams.ecomax_decode_eq, mixer_decode_closed, thermo_decode_closed (= mixer_decode_eq / thermo_decode_eq + mixer_dict / '
+                 'thermo_dict), thermo_sizes_tbl) + translator validation (harness/pycode.py group structparams)',
              'every sensor section reads its own bytes / width / sentinel / count': 'theorem',
              'sensor chain for every presence combination': 'theorem (rt_sensorData)',
              'regulator data over all 17 type ids, bit arrays crossing byte boundaries': 'theorem (rt_scalar, rt_bitRun, rt_regdata, '
